@@ -61,3 +61,7 @@ func VX_C12_main_cfg3()    { vxRunMain(3, "derive") }
 func VX_C12_main_cfg4()    { vxRunMain(4, "gen") }
 func VX_C12_main_cfg5()    { vxRunMain(5, "derive") }
 func VX_C12_main_cfg6gen() { vxRunMain(6, "gen") }
+
+// the empty global prefix: the talk examples call Equal(a, b), Sort(Keys(m)) and run goderive -prefix=""
+func VX_C12_main_cfg0empty() { vxRunMain(0, "") }
+func VX_C12_main_cfg2empty() { vxRunMain(2, "") }
